@@ -130,6 +130,12 @@ def respond (line : String) : String :=
     match parseAll parseTx? (txs.filter (· ≠ "")) with
     | none => "bad-request"
     | some l => s!"ok {(validateErrors l).length}"
+  | "schwab" :: rows =>
+    match parseAll parseRow? (rows.filter (· ≠ "")) with
+    | none => "bad-request"
+    | some rs =>
+      let o := Schwab.convert rs
+      s!"ok {o.skipped} {o.warnings}" ++ String.join (o.items.map (fun i => " " ++ showItem i))
   | "spec" :: txs =>
     match parseAll parseTx? (txs.filter (· ≠ "")) with
     | none => "bad-request"
